@@ -10,7 +10,7 @@ use crate::analysis::opt::OptimizationPlan;
 use crate::arena::{Arena, ArenaCow, ArenaString, PoolSet};
 use crate::arena_format;
 use crate::builtins::{
-    ArrayBuiltin, Builtin, GlobalBuiltin, NumberBuiltin, ProcessCommandBuiltin,
+    ArrayBuiltin, Builtin, GlobalBuiltin, MemberBuiltin, NumberBuiltin, ProcessCommandBuiltin,
     ProcessResultBuiltin, StringBuiltin,
 };
 use crate::diagnostics::{AsStr, Diagnostics, Label, Severity, Span};
@@ -98,6 +98,33 @@ impl RuntimeError {
         ty: &'static str,
     ) -> Self {
         Self { kind, span, name: name.into(), ty }
+    }
+
+    /// A value whose type is only known at run time (parameter, array element,
+    /// `pop()` result, ...) reached an operator, condition, index or argument
+    /// position that does not accept it.
+    fn type_mismatch(span: Span, what: impl Into<String>, value: &Value<'_>) -> Self {
+        Self::new_with_extras(
+            RuntimeErrorKind::TypeMismatch,
+            span,
+            what,
+            GlobalBuiltin::type_of(value),
+        )
+    }
+}
+
+const fn binary_op_word(op: BinaryOp) -> &'static str {
+    match op {
+        BinaryOp::Add => "add",
+        BinaryOp::Minus => "minus",
+        BinaryOp::Times => "times",
+        BinaryOp::Divide => "divide",
+        BinaryOp::Mod => "mod",
+        BinaryOp::And => "and",
+        BinaryOp::Or => "or",
+        BinaryOp::Eq => "na",
+        BinaryOp::Gt => "pass",
+        BinaryOp::Lt => "small pass",
     }
 }
 
@@ -465,9 +492,10 @@ impl<'a> Runtime<'a> {
                 let is_truthy = match val {
                     Value::Bool(b) => b,
                     Value::Null => false, // null is falsy
-                    _ => unreachable!(
-                        "Semantic analysis guarantees only boolean expressions in conditions"
-                    ),
+                    // Only a dynamically typed condition gets here.
+                    other => {
+                        return Err(RuntimeError::type_mismatch(cond.span(), "if to say", &other));
+                    }
                 };
                 if is_truthy {
                     self.exec_block_with_flow(then_b)
@@ -483,9 +511,10 @@ impl<'a> Runtime<'a> {
                     let should_continue = match val {
                         Value::Bool(b) => b,
                         Value::Null => false,
-                        _ => unreachable!(
-                            "Semantic analysis guarantees only boolean expressions in loop conditions"
-                        ),
+                        // Only a dynamically typed condition gets here.
+                        other => {
+                            return Err(RuntimeError::type_mismatch(cond.span(), "jasi", &other));
+                        }
                     };
                     if !should_continue {
                         break;
@@ -641,7 +670,7 @@ impl<'a> Runtime<'a> {
                     match r {
                         Value::Bool(b) => Ok(Value::Bool(b)),
                         Value::Null => Ok(Value::Bool(false)),
-                        _ => unreachable!("Semantic analysis guarantees boolean expressions"),
+                        other => Err(RuntimeError::type_mismatch(*span, "and", &other)),
                     }
                 }
                 BinaryOp::Or => {
@@ -653,7 +682,7 @@ impl<'a> Runtime<'a> {
                     match r {
                         Value::Bool(b) => Ok(Value::Bool(b)),
                         Value::Null => Ok(Value::Bool(false)),
-                        _ => unreachable!("Semantic analysis guarantees boolean expressions"),
+                        other => Err(RuntimeError::type_mismatch(*span, "or", &other)),
                     }
                 }
                 _ => {
@@ -688,10 +717,20 @@ impl<'a> Runtime<'a> {
                             BinaryOp::Eq => Ok(Value::Bool(ls == rs)),
                             BinaryOp::Gt => Ok(Value::Bool(ls > rs)),
                             BinaryOp::Lt => Ok(Value::Bool(ls < rs)),
-                            _ => unreachable!("Semantic analysis guarantees valid string ops"),
+                            _ => Err(RuntimeError::type_mismatch(
+                                *span,
+                                binary_op_word(*op),
+                                &Value::Str(ls),
+                            )),
                         },
                         (Value::Str(ls), Value::Number(n)) => {
-                            assert!(matches!(op, BinaryOp::Add));
+                            if !matches!(op, BinaryOp::Add) {
+                                return Err(RuntimeError::type_mismatch(
+                                    *span,
+                                    binary_op_word(*op),
+                                    &Value::Str(ls),
+                                ));
+                            }
                             let mut writer = LenWriter(0);
                             write!(writer, "{n}").unwrap();
                             let mut s =
@@ -701,7 +740,13 @@ impl<'a> Runtime<'a> {
                             Ok(Value::Str(ArenaCow::Owned(s)))
                         }
                         (Value::Number(n), Value::Str(rs)) => {
-                            assert!(matches!(op, BinaryOp::Add));
+                            if !matches!(op, BinaryOp::Add) {
+                                return Err(RuntimeError::type_mismatch(
+                                    *span,
+                                    binary_op_word(*op),
+                                    &Value::Str(rs),
+                                ));
+                            }
                             let mut writer = LenWriter(0);
                             write!(writer, "{n}").unwrap();
                             let mut s =
@@ -714,31 +759,48 @@ impl<'a> Runtime<'a> {
                             BinaryOp::Eq => Ok(Value::Bool(lv == rv)),
                             BinaryOp::Gt => Ok(Value::Bool(lv && !rv)), // false < true
                             BinaryOp::Lt => Ok(Value::Bool(!lv & rv)),
-                            _ => unreachable!("Semantic analysis guarantees valid bool ops"),
+                            _ => Err(RuntimeError::type_mismatch(
+                                *span,
+                                binary_op_word(*op),
+                                &Value::Bool(lv),
+                            )),
                         },
                         (Value::Null, Value::Null) => match op {
                             BinaryOp::Eq => Ok(Value::Bool(true)),
                             BinaryOp::Gt | BinaryOp::Lt => Ok(Value::Bool(false)),
-                            _ => unreachable!("Semantic analysis guarantees valid null ops"),
+                            _ => Err(RuntimeError::type_mismatch(
+                                *span,
+                                binary_op_word(*op),
+                                &Value::Null,
+                            )),
                         },
                         (Value::Null, ..) | (.., Value::Null) => match op {
                             BinaryOp::Eq | BinaryOp::Gt | BinaryOp::Lt => Ok(Value::Bool(false)),
-                            _ => unreachable!("Semantic analysis guarantees valid null ops"),
+                            _ => Err(RuntimeError::type_mismatch(
+                                *span,
+                                binary_op_word(*op),
+                                &Value::Null,
+                            )),
                         },
-                        _ => {
-                            unreachable!("Semantic analysis guarantees matching operand types")
+                        // Operands whose run-time types do not go together
+                        // (only possible through dynamically typed operands).
+                        (lv, _) => {
+                            Err(RuntimeError::type_mismatch(*span, binary_op_word(*op), &lv))
                         }
                     }
                 }
             },
 
-            Expr::Unary { op, expr, .. } => {
+            Expr::Unary { op, expr, span } => {
                 let v = self.eval_expr(expr)?;
                 match (op, v) {
                     (UnaryOp::Not, Value::Bool(b)) => Ok(Value::Bool(!b)),
                     (UnaryOp::Not, Value::Null) => Ok(Value::Bool(true)),
                     (UnaryOp::Minus, Value::Number(n)) => Ok(Value::Number(-n)),
-                    _ => unreachable!("Semantic analysis guarantees valid unary expressions"),
+                    (UnaryOp::Not, other) => Err(RuntimeError::type_mismatch(*span, "not", &other)),
+                    (UnaryOp::Minus, other) => {
+                        Err(RuntimeError::type_mismatch(*span, "minus", &other))
+                    }
                 }
             }
             Expr::Array { elements, .. } => {
@@ -749,11 +811,12 @@ impl<'a> Runtime<'a> {
                 }
                 Ok(Value::Array(values))
             }
-            Expr::Index { array, index, index_span, .. } => {
+            Expr::Index { array, index, index_span, span } => {
                 let array_value = self.eval_expr(array)?;
                 let index_value = self.eval_expr(index)?;
-                let Value::Array(mut items) = array_value else {
-                    unreachable!("Semantic analysis guarantees only arrays can be indexed")
+                let mut items = match array_value {
+                    Value::Array(items) => items,
+                    other => return Err(RuntimeError::type_mismatch(*span, "index", &other)),
                 };
 
                 let Value::Number(index_number) = index_value else {
@@ -775,8 +838,10 @@ impl<'a> Runtime<'a> {
                 let slot = mem::replace(slot, Value::Null);
                 Ok(slot)
             }
-            Expr::Member { .. } => {
-                unreachable!("Semantic analysis guarantees member access is always a function call")
+            Expr::Member { object, field, span, .. } => {
+                // `value.name` without a call: there are no fields to read.
+                let receiver = self.eval_expr(object)?;
+                Err(RuntimeError::type_mismatch(*span, *field, &receiver))
             }
             Expr::Call { .. } => self.eval_function_call(expr),
         }
@@ -794,7 +859,11 @@ impl<'a> Runtime<'a> {
 
         let func_name = match callee {
             Expr::Var(name, ..) => *name,
-            _ => unreachable!("Semantic analysis guarantees callee is variable or member"),
+            // e.g. `f()()` or `a[0]()`: only named functions and methods can be called.
+            other => {
+                let value = self.eval_expr(other)?;
+                return Err(RuntimeError::type_mismatch(*span, "call", &value));
+            }
         };
 
         if let Some(builtin) = GlobalBuiltin::from_name(func_name) {
@@ -898,7 +967,7 @@ impl<'a> Runtime<'a> {
             }
             GlobalBuiltin::Command => {
                 let Value::Str(program) = &arg_values[0] else {
-                    unreachable!("Semantic analysis guarantees string arg")
+                    return Err(RuntimeError::type_mismatch(span, "command", &arg_values[0]));
                 };
                 Ok(Value::Host(HostHandle::new_in(
                     self.frame,
@@ -915,6 +984,20 @@ impl<'a> Runtime<'a> {
         args: &'a ArgList<'a>,
         span: Span,
     ) -> Result<Value<'a>, RuntimeError> {
+        // With a receiver whose type is only known at run time the checker cannot
+        // validate the argument count, so it is validated here before any argument
+        // is looked at.
+        if let Some(builtin) = MemberBuiltin::from_name(field)
+            && args.args.len() != builtin.arity()
+        {
+            return Err(RuntimeError::new_with_extras(
+                RuntimeErrorKind::TypeMismatch,
+                span,
+                field,
+                "argument list",
+            ));
+        }
+
         // Mutable methods stay name-directed so lvalue receivers and index expressions are
         // evaluated only on the mutation path.
         if let Some(array_builtin) = ArrayBuiltin::from_name(field)
@@ -982,7 +1065,12 @@ impl<'a> Runtime<'a> {
                     )),
                 },
             },
-            Value::Bool(..) => unimplemented!("Boolean methods not implemented yet"),
+            Value::Bool(..) => Err(RuntimeError::new_with_extras(
+                RuntimeErrorKind::TypeMismatch,
+                span,
+                field,
+                GlobalBuiltin::type_of(&receiver),
+            )),
             Value::Null => Err(RuntimeError::new_with_extras(
                 RuntimeErrorKind::TypeMismatch,
                 span,
@@ -1131,7 +1219,7 @@ impl<'a> Runtime<'a> {
             ArrayBuiltin::Join => {
                 let sep = self.eval_expr(args.args[0])?;
                 let Value::Str(sep) = sep else {
-                    unreachable!("Semantic analysis guarantees string arg")
+                    return Err(RuntimeError::type_mismatch(args.args[0].span(), "join", &sep));
                 };
                 let result = ArrayBuiltin::join(array, &sep, self.frame);
                 Ok(Value::Str(ArenaCow::Owned(result)))
@@ -1203,7 +1291,12 @@ impl<'a> Runtime<'a> {
                         let s = StringBuiltin::slice(s, start, end, self.frame);
                         Ok(Value::Str(ArenaCow::Owned(s)))
                     }
-                    _ => unreachable!("Semantic analysis guarantees number args"),
+                    (Value::Number(..), other) => {
+                        Err(RuntimeError::type_mismatch(args.args[1].span(), "slice", &other))
+                    }
+                    (other, _) => {
+                        Err(RuntimeError::type_mismatch(args.args[0].span(), "slice", &other))
+                    }
                 }
             }
             StringBuiltin::ToUppercase => {
@@ -1222,7 +1315,7 @@ impl<'a> Runtime<'a> {
                 let needle = self.eval_expr(args.args[0])?;
                 match needle {
                     Value::Str(n) => Ok(Value::Number(StringBuiltin::find(s, &n))),
-                    _ => unreachable!("Semantic analysis guarantees string arg"),
+                    other => Err(RuntimeError::type_mismatch(args.args[0].span(), "find", &other)),
                 }
             }
             StringBuiltin::Replace => {
@@ -1233,7 +1326,12 @@ impl<'a> Runtime<'a> {
                         let result = StringBuiltin::replace(s, &o, &n, self.frame);
                         Ok(Value::Str(ArenaCow::Owned(result)))
                     }
-                    _ => unreachable!("Semantic analysis guarantees string args"),
+                    (Value::Str(..), other) => {
+                        Err(RuntimeError::type_mismatch(args.args[1].span(), "replace", &other))
+                    }
+                    (other, _) => {
+                        Err(RuntimeError::type_mismatch(args.args[0].span(), "replace", &other))
+                    }
                 }
             }
             StringBuiltin::ToNumber => Ok(Value::Number(StringBuiltin::to_number(s))),
@@ -1247,7 +1345,7 @@ impl<'a> Runtime<'a> {
                             .for_each(|s| collection.push(Value::Str(ArenaCow::Owned(s))));
                         Ok(Value::Array(collection))
                     }
-                    _ => unreachable!("Semantic analysis guarantees string arg"),
+                    other => Err(RuntimeError::type_mismatch(args.args[0].span(), "split", &other)),
                 }
             }
         }
@@ -1290,7 +1388,10 @@ impl<'a> Runtime<'a> {
                 }
             }
             Expr::Index { .. } => {
-                let (base_expr, base_var, index_exprs) = self.flatten_index_target(object);
+                let Some((base_expr, base_var, index_exprs)) = self.flatten_index_target(object)
+                else {
+                    return Err(RuntimeError::new(RuntimeErrorKind::TypeMismatch, span));
+                };
 
                 let mut evaluated_indices = Vec::with_capacity_in(index_exprs.len(), self.frame);
                 for (index_expr, index_span) in &index_exprs {
@@ -1373,7 +1474,10 @@ impl<'a> Runtime<'a> {
                 }
             }
             Expr::Index { .. } => {
-                let (base_expr, base_var, index_exprs) = self.flatten_index_target(object);
+                let Some((base_expr, base_var, index_exprs)) = self.flatten_index_target(object)
+                else {
+                    return Err(RuntimeError::new(RuntimeErrorKind::TypeMismatch, span));
+                };
 
                 let mut evaluated_indices = Vec::with_capacity_in(index_exprs.len(), self.frame);
                 for (index_expr, index_span) in &index_exprs {
@@ -1626,7 +1730,9 @@ impl<'a> Runtime<'a> {
         value: Value<'a>,
         span: Span,
     ) -> Result<(), RuntimeError> {
-        let (base_expr, base_var, index_exprs) = self.flatten_index_target(target);
+        let Some((base_expr, base_var, index_exprs)) = self.flatten_index_target(target) else {
+            return Err(RuntimeError::new(RuntimeErrorKind::TypeMismatch, span));
+        };
 
         let mut evaluated_indices = Vec::with_capacity_in(index_exprs.len(), self.frame);
         for (index_expr, index_span) in &index_exprs {
@@ -1672,10 +1778,14 @@ impl<'a> Runtime<'a> {
         unreachable!("Index assignment should return inside loop");
     }
 
+    /// Splits `a[i][j]` into the variable `a` and its index expressions.
+    /// Returns `None` when the chain is not rooted at a variable (`f()[0]`,
+    /// `[1][0]`): such a target is not an assignable place.
+    #[allow(clippy::type_complexity)]
     fn flatten_index_target(
         &self,
         mut target: ExprRef<'a>,
-    ) -> (ExprRef<'a>, &'a str, Vec<(ExprRef<'a>, Span), &'a Arena>) {
+    ) -> Option<(ExprRef<'a>, &'a str, Vec<(ExprRef<'a>, Span), &'a Arena>)> {
         let mut indices = Vec::new_in(self.frame);
         loop {
             match target {
@@ -1685,9 +1795,9 @@ impl<'a> Runtime<'a> {
                 }
                 Expr::Var(name, ..) => {
                     indices.reverse();
-                    return (target, *name, indices);
+                    return Some((target, *name, indices));
                 }
-                _ => unreachable!("Semantic analysis guarantees valid index assignment target",),
+                _ => return None,
             }
         }
     }
